@@ -55,7 +55,7 @@ theorem to_u16_eq {n : Int} (h : 0 ≤ n ∧ n < 65536) : to_u16 n = .ok n := by
   have h2 : ¬ (n < -32768) := by omega
   have h3 : ¬ (n < 0) := by omega
   simp [h1, h2, h3]
-  rfl
+  first | rfl | exact congrArg Except.ok (by omega)
 
 theorem sub_core (x y : BitVec 16) (c cb : Bool) :
     let borrow : Int := if (!cb && !c) = true then 1 else 0
@@ -158,7 +158,7 @@ theorem to_u32_eq {n : Int} (h : -2147483648 ≤ n ∧ n < 4294967296) :
   unfold to_u32
   have h1 : ¬ (n ≥ 4294967296) := by omega
   have h2 : ¬ (n < -2147483648) := by omega
-  by_cases h3 : n < 0 <;> simp [h1, h2, h3] <;> rfl
+  by_cases h3 : n < 0 <;> simp [h1, h2, h3] <;> first | rfl | exact congrArg Except.ok (by omega)
 
 theorem to_u32_from_u16 (x : BitVec 16) :
     to_u32 (from_u16 (x.toNat : Int)) = .ok (((x.signExtend 32).toNat : Nat) : Int) := by
